@@ -127,6 +127,12 @@ def corruptions(p, frame, rng, n):
         g = list(frame)
         g[nli - 1] = int(g[nli - 1] * 2.2)
         out.append(('lead-in', nli - 1, g))
+        # every lead-in duration moderately off: beyond the tolerance (20 %) in both directions, up to twice and three times it
+        for j in range(nli):
+            for fac in (0.62, 0.7, 0.76, 1.26, 1.35, 1.45):
+                g = list(frame)
+                g[j] = int(g[j] * fac)
+                out.append(('lead-in-scaled', j, g))
     return out
 
 
